@@ -24,7 +24,8 @@ REQUIRED_COUNTERS = ["objects_judged", "intersecting_objects", "strictly_inside_
 ASSUMPTIONS = [
     "reference state = the placed object's own `apply` run directly on the arrays returned by apply_params",
     "objects whose box shares no cell with any device are not judged (the statement only covers intersecting ones)",
-    "mode sources/detectors (external mode solver) and TFSF regions are not driven",
+    "mode sources/detectors (external mode solver) and TFSF regions are not driven; the field/energy/Poynting "
+    "detectors that are driven keep no material-dependent state, so their evaluations are counted as trivial",
 ]
 CASE_TIMEOUT = {"quick": 600, "thorough": 1800}
 
@@ -410,7 +411,8 @@ def _judge(case, scene, shape, dboxes, objs_desc, rng, r):
             mech = MECH if (any(inter) and not any(flags)) else None
             sl = tuple(slice(b[0], b[1]) for b in box)
             sees_change = bool(changed[sl].any())
-            sig = (kind, rels, case["device_kind"], len(dboxes)) if (sees_change or kind == "detector") else None
+            # detectors driven here keep no material-dependent state (their apply is the base no-op): judged, but trivial
+            sig = (kind, rels, case["device_kind"], len(dboxes)) if (sees_change and kind != "detector") else None
             wit = {
                 "object": name,
                 "kind": kind,
@@ -484,7 +486,8 @@ def _judge(case, scene, shape, dboxes, objs_desc, rng, r):
                 # independent of the library's apply: cached local inverse permittivity == array at the cell
                 cell = tuple(b[0] for b in box)
                 want = post_inv[(slice(None),) + cell]
-                got = np.asarray(obj._inv_eps_local).reshape(-1)
+                unset = type(obj._inv_eps_local).__name__ == "Null"
+                got = np.zeros(0) if unset else np.asarray(obj._inv_eps_local, dtype=float).reshape(-1)
                 if arrays.dispersive_c1 is None:
                     r.count("comparisons")
                     w = want.reshape(-1)
